@@ -11,6 +11,18 @@ NOTE = ("Trusted: Coq 8.16.1 kernel + vm_compute (no native_compute; coqchk in t
         "implementation. Modelled-not-verified: CPython primitives, re, json, hashlib, sockets, threads, time (DESIGN.md sections 3-4).")
 
 CHECKS = {
+    'C02': dict(technique='Coq: induction over all note sequences (status fold), report model status theorem; correspondence of the report model with output() by vm_compute case files; CLI oracle over TCP (healthy, broken-handshake and policy peers)',
+                text='Theorems: for every sequence/order of note levels the fold yields FAILURE iff a fail is present, WARNING iff warn without fail, GOOD iff neither; the status of the modelled report of ANY peer is the worst level among its items; policy verdict <-> status. Correspondence: model report (status+items) = real output() on generated peers. Oracle: real process exit status vs printed report under option sets; handshakes broken at each stage exit 1 with no algorithm report; built-in policy audits 0 iff Passed, 3 iff Failed. The incomplete-audit clause is proved in the C09 audit state machine.',
+                ref='DESIGN.md section 5 C02'),
+    'C03': dict(technique='Coq: pointwise characterisation of the final per-scan database (only channels: Terrapin marks, OpenSSH-2048 note), text/JSON agreement and unknown-name theorems over an arbitrary database; correspondence with output()/build_struct(); oracle across placements, roles, text/JSON/--lookup',
+                text='Theorems for all databases, peers and names: the entry a scan renders from is master (+) a context-only edit; texts and JSON notes depend only on that entry; text and JSON carry the same notes; unknown names are flagged in both views and never yield status GOOD. Oracle: every database name in several list positions/neighbourhoods/roles gives identical notes; text = JSON = --lookup.',
+                ref='DESIGN.md section 5 C03'),
+    'C04': dict(technique='Coq: iff-theorem of the Terrapin rule over all peers, both roles and any Terrapin-free database (fold/update lemmas), advisory and suppression theorems; kernel-evaluated fact that the generated table is Terrapin-free; exhaustive context grid oracle on output()',
+                text='terrapin_rule: a known cipher/MAC carries the warning IFF no own-role marker and (ChaCha offered, or CBC offered with an ETM MAC, or ETM offered with a CBC cipher); advisory names exactly the marked set when the marker is present; disabled ChaCha/CBC/ETM names are suppressed and suppressed names are never recommended. Oracle: role x marker x chacha x cbc x etm grid x database/unknown names through the real output(), text and JSON.',
+                ref='DESIGN.md section 5 C04'),
+    'C13': dict(technique='Coq: soundness/completeness/disjointness theorems of the recommendation pass over an arbitrary database and abstract availability predicate (instantiated by the C14 comparator); correspondence of recommendations with output(); statement-level oracle incl. independent numeric availability',
+                text='Theorems: every del/chg names an advertised algorithm with faults (sound) and every such algorithm known in the identified version is recommended unless suppressed (complete); critical iff failure (given <10 warnings per entry); every add is unadvertised, fault-free, not cert/sk/pseudo, available in the identified version, software recognised; nothing both ways; no software, no recommendations.',
+                ref='DESIGN.md section 5 C13'),
     'C10': dict(technique='Coq: unbounded round-trip theorems (induction, lia/nia) over a hand-written model of the codecs and packet reader; model tied to the code by vm_compute case files; RFC-based Python oracle',
                 text='Theorems for all values: byte/bool/u32/string/name-list round trips, SSH-2 mpint of either sign through the 32-bit word loop (the lemma the pre-fix code violated), minimal encoding, RFC 4253 framing for every payload length and read-back by the modelled reader. Correspondence: ~10k codec/framing/reader cases per quick run incl. truncation, mutation and segmentation. Not yet proved: SSH-1 mpint round trip, KEXINIT/PKM message round trips, CRC table = bit-serial division (covered by correspondence + zlib oracle only).',
                 ref='DESIGN.md section 5 C10'),
